@@ -42,6 +42,16 @@ type siteRow struct {
 	pos       string
 }
 
+// callRec: a call from function [fn] to a function of the same package, with the locks held there
+type callRec struct {
+	fn     string
+	callee string
+	held   []heldLock
+	pos    token.Pos
+}
+
+var allCalls []callRec
+
 type sitesCtx struct {
 	pkg       *packages.Package
 	rows      []siteRow
@@ -283,6 +293,11 @@ func (c *sitesCtx) handleCalls(fn string, n ast.Node, held []heldLock) []heldLoc
 			}
 			if f := c.calleeOf(x); f != nil {
 				c.callSites[f] = append(c.callSites[f], cloneHeld(held))
+				// only unexported helpers: an exported method is an operation of its own, and a
+				// sequence of operations is not meant to be one critical section
+				if fd := c.decls[f]; fd != nil && c.pass == 1 && !ast.IsExported(fd.Name.Name) {
+					allCalls = append(allCalls, callRec{fn, funcKey(fd), cloneHeld(held), x.Pos()})
+				}
 			}
 			// synchronously invoked literals: func(){...}() and X.Do(func(){...})
 			if fl, ok := x.Fun.(*ast.FuncLit); ok {
@@ -548,6 +563,31 @@ func genSites() {
 				sessions[k] = map[token.Pos]bool{}
 			}
 			sessions[k][h.sess] = true
+		}
+	}
+	// a call to an unexported helper that has a critical section of its own on lock L, made while L
+	// is not held, is a separate critical section on L of the caller too (transitively)
+	for round := 0; round < 4; round++ {
+		for _, cr := range allCalls {
+			for k, s := range sessions {
+				if k.fn != cr.callee || len(s) == 0 {
+					continue
+				}
+				heldHere := false
+				for _, h := range cr.held {
+					if h.cls == k.cls {
+						heldHere = true
+					}
+				}
+				if heldHere {
+					continue
+				}
+				ck := fk{cr.fn, k.cls}
+				if sessions[ck] == nil {
+					sessions[ck] = map[token.Pos]bool{}
+				}
+				sessions[ck][cr.pos] = true
+			}
 		}
 	}
 	var splits []string
